@@ -19,6 +19,7 @@ def run(rep, tier):
     for rid, txt in [
         ('SPAN-convert', 'conversion: for node in visit(nodes); start = recorded start; end = recorded end - 1 '
                          '(not before start); _PositionInfo(start, end) of positions built from one index'),
+        ('SPAN-convert-once', 'only raw spans are converted (objects finalised by a nested parse are left alone)'),
         ('TABLE-index', 'guarded table lookups'), ('TABLE-whole-text', 'tables from the whole text'),
         ('SPAN-writers', 'position_info is stored only by Seq._compile and _finalize_parse_info'),
     ]:
@@ -36,7 +37,7 @@ def run(rep, tier):
         rep.obligations += n
         rep.discharged += n - len(found)
         for rule, msg in found:
-            if rule in ('SPAN-convert', 'TABLE-index', 'TABLE-whole-text'):
+            if rule in ('SPAN-convert', 'SPAN-convert-once', 'TABLE-index', 'TABLE-whole-text'):
                 rep.add(Finding(rule, f'{rel}:runtime', '', msg, f'{rel} ({what})'))
         for rule, msg in vfound:
             if rule in ('C15-dedup', 'C15-dedup-identity', 'C15-visit-yield', 'C15-children'):
